@@ -89,7 +89,44 @@ def canonicalise(repo, modules):
             return _params(target.node, False)
         return None
 
-    def rewrite(call: ast.Call, mod, cls):
+    def is_dict(e, fn, cls, depth=0) -> bool:
+        """The expression is recognisably a dict: a literal, dict(...), a property annotated `-> dict[...]`, or a local name
+        only ever bound to such expressions."""
+        if depth > 3:
+            return False
+        if isinstance(e, (ast.Dict, ast.DictComp)):
+            return True
+        if isinstance(e, ast.Call) and isinstance(e.func, ast.Name) and e.func.id == "dict":
+            return True
+        if isinstance(e, ast.Attribute) and isinstance(e.value, ast.Name) and e.value.id == "self" and cls is not None:
+            m = cls.find_method(e.attr)
+            if m is not None and "property" in m.decorators and m.node.returns is not None:
+                return ast.unparse(m.node.returns).startswith(("dict", "typing.Dict", "Dict"))
+            return False
+        if isinstance(e, ast.Name) and fn is not None:
+            values = []
+            for n in ast.walk(fn):
+                if isinstance(n, ast.Assign) and any(isinstance(t, ast.Name) and t.id == e.id for t in n.targets):
+                    values.append(n.value)
+                elif isinstance(n, (ast.AnnAssign, ast.AugAssign, ast.NamedExpr)) and isinstance(n.target, ast.Name) and n.target.id == e.id:
+                    values.append(n.value)
+                elif isinstance(n, (ast.For, ast.comprehension)) and any(isinstance(t, ast.Name) and t.id == e.id for t in ast.walk(n.target)):
+                    return False
+            params = {a.arg for a in fn.args.args + fn.args.kwonlyargs + fn.args.posonlyargs}
+            if e.id in params or not values:
+                return False
+            return all(v is not None and is_dict(v, fn, cls, depth + 1) for v in values)
+        return False
+
+    def rewrite(call: ast.Call, mod, cls, fn=None):
+        # d.update(**kwargs) -> d.update(kwargs): the keys of a function's own **kwargs are strings
+        f = call.func
+        if (isinstance(f, ast.Attribute) and f.attr == "update" and not call.args and len(call.keywords) == 1 and call.keywords[0].arg is None
+                and fn is not None and fn.args.kwarg is not None and isinstance(call.keywords[0].value, ast.Name) and call.keywords[0].value.id == fn.args.kwarg.arg
+                and is_dict(f.value, fn, cls)):
+            call.args = [call.keywords[0].value]
+            call.keywords = []
+            return
         # **{'a': x} -> a=x
         kws = []
         for k in call.keywords:
@@ -117,16 +154,18 @@ def canonicalise(repo, modules):
         _, fn_node, mod, cls = modules
         for node in ast.walk(fn_node):
             if isinstance(node, ast.Call):
-                rewrite(node, mod, cls)
+                rewrite(node, mod, cls, fn_node)
         return
     for mod in modules:
-        def walk(node, cls):
+        def walk(node, cls, fn):
             for ch in ast.iter_child_nodes(node):
-                inner = cls
+                inner, infn = cls, fn
                 if isinstance(ch, ast.ClassDef):
                     inner = repo.classes.get(f"{mod.name}.{ch.name}") if cls is None else repo.classes.get(f"{mod.name}.{cls.name}.{ch.name}")
-                walk(ch, inner)
+                if isinstance(ch, (ast.FunctionDef, ast.AsyncFunctionDef)):
+                    infn = ch
+                walk(ch, inner, infn)
             if isinstance(node, ast.Call):
-                rewrite(node, mod, cls)
+                rewrite(node, mod, cls, fn)
 
-        walk(mod.tree, None)
+        walk(mod.tree, None, None)
